@@ -605,11 +605,13 @@ func (c *Conn) send(ctx context.Context, f func(context.Context) error) error {
 		if err := c.state.WaitUntilOrClosed(ctx, connStatusConnected); err != nil {
 			return err
 		}
+		connects := c.state.Connects()
 		if err := f(ctx); err != nil {
 			if !errors.Is(err, errors.ErrConnectionClosed) {
 				return err
 			}
-			if c.state.CompareAndSwapNot(connStatusClosed, connStatusReconnecting) {
+			// a failure of a wire connection that has already been replaced must not take the new one down
+			if c.state.CompareAndSwapNotSince(connects, connStatusClosed, connStatusReconnecting) {
 				continue
 			}
 			return errors.ErrConnectionClosed
